@@ -2,6 +2,7 @@
 //! `Sym`, solver-decided obligations, replay on the real ciphersuites, evidence.
 #![allow(non_snake_case)]
 mod meta;
+mod pin;
 mod suite;
 
 use scen::Params;
@@ -131,6 +132,14 @@ fn main() {
     let prop = args.prop.clone();
     let tier = if args.thorough { "thorough" } else { "quick" };
 
+    if prop == "pin-spec" {
+        let (n, fails) = pin::pin_all();
+        println!("pin-spec: {n} values of the RFC 9591 transcription compared with the RFC vectors of 5 suites, {} mismatches", fails.len());
+        for f in &fails {
+            println!("  MISMATCH {f}");
+        }
+        std::process::exit(if fails.is_empty() && n > 0 { 0 } else { 2 });
+    }
     if let Some(path) = &args.replay {
         let v: serde_json::Value = serde_json::from_str(&std::fs::read_to_string(path).expect("replay file")).expect("json");
         let p = Params::from_json(&v["params"]).expect("params");
